@@ -385,7 +385,18 @@ pub fn def(tier: crate::runner::Tier) -> CheckDef {
         ],
         idle_limit_s: 300,
         needs_cli: false,
+        fuzz: Some(("fuzz_lex", 1500000)),
         parts: vec![
+            Part {
+                name: "fuzz",
+                rounds: 0,
+                run: Box::new(|_, _| {}),
+                replay: Some(Box::new(|ctx, inp| match inp {
+                    ReplayInput::Text(t) => prop_case(ctx, t),
+                    ReplayInput::Bytes(b) => { let t = String::from_utf8_lossy(b).into_owned(); prop_case(ctx, &t) }
+                    ReplayInput::Choices(_) => Err(Failure::new("the fuzz part replays raw artifacts", "")),
+                })),
+            },
             Part {
                 name: "enum-classes",
                 rounds: 1,
@@ -427,7 +438,7 @@ pub fn def(tier: crate::runner::Tier) -> CheckDef {
                 }),
                 replay: Some(Box::new(|ctx, inp| match inp {
                     ReplayInput::Choices(c) => prop_case(ctx, &gen_soup(&mut Ch::new(c))),
-                    ReplayInput::Text(t) => replay_text(ctx, &ReplayInput::Text(t.clone())),
+                    other => replay_text(ctx, other),
                 })),
             },
             Part {
@@ -441,7 +452,7 @@ pub fn def(tier: crate::runner::Tier) -> CheckDef {
                 }),
                 replay: Some(Box::new(|ctx, inp| match inp {
                     ReplayInput::Choices(c) => prop_case(ctx, &gen_unicode(&mut Ch::new(c))),
-                    ReplayInput::Text(t) => replay_text(ctx, &ReplayInput::Text(t.clone())),
+                    other => replay_text(ctx, other),
                 })),
             },
         ],
@@ -494,6 +505,6 @@ pub fn undebug(s: &str) -> String {
 fn replay_text(ctx: &Ctx, inp: &ReplayInput) -> Outcome {
     match inp {
         ReplayInput::Text(t) => prop_case(ctx, &undebug(t)),
-        ReplayInput::Choices(_) => Err(Failure::new("this part replays from text", "")),
+        _ => Err(Failure::new("this part replays from text", "")),
     }
 }
